@@ -278,9 +278,17 @@ impl Check for C01 {
         tier.pick(std::time::Duration::from_secs(150), std::time::Duration::from_secs(1200))
     }
     fn required_counters(&self, _tier: Tier) -> Vec<&'static str> {
-        vec!["reads-from-disk", "reads-from-cache", "ops:overwrite", "ops:remove", "out-of-spawn-order-completions"]
+        vec!["reads-from-disk", "reads-from-cache", "ops:overwrite", "ops:remove", "out-of-spawn-order-completions", "burst:notifications-beyond-channel-capacity", "cleanup:removed-keys-judged"]
     }
     fn run_case(&self, cx: &mut Cx) {
+        if cx.index == 1 {
+            burst_case(cx);
+            return;
+        }
+        if cx.index % 64 == 2 {
+            cleanup_case(cx);
+            return;
+        }
         let root = scratch_dir("c01");
         let mut sim = Sim::new(cx.rng.gen(), false);
         sim.policy = Policy::Random;
@@ -424,4 +432,243 @@ impl Check for C01 {
         let _ = std::fs::remove_dir_all(&root);
         let _: BTreeMap<u8, u8> = BTreeMap::new();
     }
+}
+
+/// More completion notifications outstanding than the driver's command channel holds: every write completes while
+/// the driver handles nothing; after settling every accepted write must be readable and listed.
+fn burst_case(cx: &mut Cx) {
+    use ant_networking::verif::LocalSwarmCmd;
+    let root = scratch_dir("c01burst");
+    let mut sim = Sim::new(cx.rng.gen(), false);
+    sim.policy = Policy::Fifo;
+    sim.set_gates_controlled(false);
+    let kp = gen::ed_keypair(&mut cx.rng);
+    sim.add_node(kp, root.clone(), false);
+    let n = 10_000 + cx.rng.gen_range(200..700);
+    let mut keys = Vec::with_capacity(n);
+    let mut values = Vec::with_capacity(n);
+    for i in 0..n {
+        let kind = KINDS[i % KINDS.len()];
+        let v = value_with_id(&mut cx.rng, kind, i as u64 + 1, 8 + i % 24);
+        let key = RecordKey::from(gen::bytes(&mut cx.rng, 32));
+        {
+            let _g = sim.rt.enter();
+            let _ = sim.nodes[0].drv.verif_handle_local_cmd(LocalSwarmCmd::PutLocalRecord { record: Record { key: key.clone(), value: v.clone(), publisher: None, expires: None } });
+        }
+        keys.push(key);
+        values.push((v, kind));
+    }
+    // the runtime runs a few dozen tasks per yield: let every write finish before the driver reads one notification
+    sim.yield_rounds(900);
+    let mut d = || true;
+    if !sim.settle(&mut d) {
+        cx.inconclusive("burst did not settle");
+        let _ = std::fs::remove_dir_all(&root);
+        return;
+    }
+    cx.count("burst:notifications-beyond-channel-capacity");
+    let listed = sim.all_addresses(0);
+    let (mut unreadable, mut unlisted, mut wrong) = (0usize, 0usize, 0usize);
+    let mut first = None;
+    for (i, key) in keys.iter().enumerate() {
+        cx.eval();
+        let addr = ant_protocol::NetworkAddress::from_record_key(key);
+        let (v, kind) = &values[i];
+        match listed.get(&addr) {
+            Some(t) if type_ok(*kind, v, t) => {}
+            _ => {
+                unlisted += 1;
+                first.get_or_insert(i);
+            }
+        }
+        // reading all 10k from disk is slow; judge every 7th and everything unlisted
+        if i % 7 == 0 || !listed.contains_key(&addr) {
+            match sim.get_local(0, key) {
+                Some(r) if r.value == *v => {}
+                Some(_) => wrong += 1,
+                None => {
+                    unreadable += 1;
+                    first.get_or_insert(i);
+                }
+            }
+        }
+    }
+    let w = json!({"records_put": n, "listed": listed.len(), "first_affected_put": first});
+    if unlisted > 0 || unreadable > 0 {
+        cx.violation("accepted-write-lost-in-burst", format!("{n} distinct keys were put in one burst (all disk writes done before the driver handled a notification); after settling {unlisted} are not listed and {unreadable} of the judged ones are not readable"), w.clone());
+    }
+    if wrong > 0 {
+        cx.violation("wrong-bytes-after-settle", format!("after a burst of {n} puts {wrong} keys read back other bytes than written"), w.clone());
+    }
+    if listed.len() > n {
+        cx.violation("unknown-key-listed", format!("after a burst of {n} puts the store lists {} keys", listed.len()), w);
+    }
+    cx.nontrivial(&("burst", n));
+    cx.sample(json!({"burst_puts": n, "listed": listed.len()}));
+    drop(sim);
+    let _ = std::fs::remove_dir_all(&root);
+}
+
+/// The third removal path: the store's own clean-up of records outside the responsible range (it applies only
+/// above MAX_RECORDS_COUNT/10 held records). Whatever the clean-up decides to drop, a dropped key must be neither
+/// readable nor listed nor on disk, a kept key must read back exactly, and a dropped key that is put again (the
+/// same bytes, or new ones) must be served again.
+fn cleanup_case(cx: &mut Cx) {
+    use crate::refmetric::*;
+    use ant_networking::verif::LocalSwarmCmd;
+    let root = scratch_dir("c01clean");
+    let mut sim = Sim::new(cx.rng.gen(), false);
+    sim.policy = Policy::Fifo;
+    sim.set_gates_controlled(false);
+    let kp = gen::ed_keypair(&mut cx.rng);
+    let me = libp2p::PeerId::from(kp.public());
+    sim.add_node(kp, root.clone(), false);
+    if cx.rng.gen_bool(0.5) {
+        let c = cx.rng.gen_range(1..=6);
+        if let Some(s) = sim.nodes[0].drv.verif_store_mut() {
+            s.verif_set_limits(16 * 1024, c);
+        }
+    }
+    let fillers = 1_640 + cx.rng.gen_range(0..80);
+    let tracked = cx.rng.gen_range(8..=24);
+    let mut keys: Vec<RecordKey> = vec![];
+    let mut values: Vec<(Vec<u8>, RecordKind)> = vec![];
+    let put = |sim: &mut Sim, key: &RecordKey, v: &[u8]| {
+        let _g = sim.rt.enter();
+        let _ = sim.nodes[0].drv.verif_handle_local_cmd(LocalSwarmCmd::PutLocalRecord { record: Record { key: key.clone(), value: v.to_vec(), publisher: None, expires: None } });
+    };
+    let mut d = || true;
+    for i in 0..(fillers + tracked) {
+        let kind = KINDS[i % KINDS.len()];
+        let size = if i < fillers { 8 } else { cx.rng.gen_range(1..3_000) };
+        let v = value_with_id(&mut cx.rng, kind, i as u64 + 1, size);
+        let key = RecordKey::from(gen::bytes(&mut cx.rng, 32));
+        put(&mut sim, &key, &v);
+        keys.push(key);
+        values.push((v, kind));
+        if i % 256 == 255 {
+            sim.settle(&mut d);
+        }
+    }
+    if !sim.settle(&mut d) {
+        cx.inconclusive("store did not settle before the clean-up");
+        let _ = std::fs::remove_dir_all(&root);
+        return;
+    }
+    // some tracked keys are read (cached / re-cached), some overwritten once more
+    for i in fillers..(fillers + tracked) {
+        match cx.rng.gen_range(0..3) {
+            0 => {
+                let _ = sim.get_local(0, &keys[i]);
+            }
+            1 => {
+                let sz = cx.rng.gen_range(1..3_000);
+                let v = value_with_id(&mut cx.rng, values[i].1, (i + 100_000) as u64, sz);
+                put(&mut sim, &keys[i], &v);
+                values[i].0 = v;
+            }
+            _ => {}
+        }
+    }
+    if !sim.settle(&mut d) {
+        cx.inconclusive("store did not settle before the clean-up");
+        let _ = std::fs::remove_dir_all(&root);
+        return;
+    }
+    let held_before = sim.all_addresses(0).len();
+    let mut ds: Vec<D32> = keys.iter().map(|k| ref_distance(&me.to_bytes(), k.as_ref())).collect();
+    ds.sort();
+    let range = ds[ds.len() * cx.rng.gen_range(15..85) / 100];
+    sim.nodes[0].drv.verif_set_distance_range(to_u256(&range));
+    {
+        let _g = sim.rt.enter();
+        let _ = sim.nodes[0].drv.verif_handle_local_cmd(LocalSwarmCmd::TriggerIrrelevantRecordCleanup);
+    }
+    if !sim.settle(&mut d) {
+        cx.inconclusive("clean-up did not settle");
+        let _ = std::fs::remove_dir_all(&root);
+        return;
+    }
+    let listed = sim.all_addresses(0);
+    let storage_dir = sim.nodes[0].root.join("record_store");
+    let files: BTreeSet<String> = std::fs::read_dir(&storage_dir).map(|rd| rd.flatten().map(|e| e.file_name().to_string_lossy().to_string()).collect()).unwrap_or_default();
+    let w = json!({"held_before": held_before, "listed_after": listed.len(), "tracked": tracked});
+    let mut dropped: Vec<usize> = vec![];
+    let mut judged_removed = 0u64;
+    // every tracked key, and a sample of the fillers
+    let sample: Vec<usize> = (0..fillers).filter(|i| i % 9 == 0).chain(fillers..fillers + tracked).collect();
+    for &i in &sample {
+        cx.eval();
+        let key = &keys[i];
+        let addr = ant_protocol::NetworkAddress::from_record_key(key);
+        let got = sim.get_local(0, key);
+        let has = sim.has_key(0, key);
+        match listed.get(&addr) {
+            Some(t) => {
+                if !type_ok(values[i].1, &values[i].0, t) || !has {
+                    cx.violation("accepted-write-not-listed-correctly", format!("after a clean-up a kept key is listed as {t:?} (contains={has})"), w.clone());
+                }
+                match got {
+                    Some(r) if r.value == values[i].0 => {}
+                    Some(_) => cx.violation("wrong-bytes-after-settle", "after a clean-up a kept key reads back other bytes than its most recent write".to_string(), w.clone()),
+                    None => cx.violation("accepted-write-unreadable-after-settle", "after a clean-up a key that is still listed is not readable".to_string(), w.clone()),
+                }
+            }
+            None => {
+                judged_removed += 1;
+                if i >= fillers {
+                    dropped.push(i);
+                }
+                if got.is_some() {
+                    cx.violation("removed-key-readable", format!("a key dropped by the store's clean-up (not listed any more) is still readable (tracked key: {})", i >= fillers), w.clone());
+                }
+                if has {
+                    cx.violation("removed-key-listed", "a key dropped by the store's clean-up is still reported as held".to_string(), w.clone());
+                }
+                if files.contains(&hex(key.as_ref())) {
+                    cx.violation("removed-key-file-remains", "the record file of a key dropped by the store's clean-up still exists".to_string(), w.clone());
+                }
+            }
+        }
+    }
+    if judged_removed > 0 {
+        cx.count_n("cleanup:removed-keys-judged", judged_removed);
+    }
+    // a dropped key that is put again must be served again: the same bytes for one half, new bytes for the other
+    sim.nodes[0].drv.verif_set_distance_range(to_u256(&[0xffu8; 32]));
+    let mut again: Vec<(usize, Vec<u8>)> = vec![];
+    for (n, &i) in dropped.iter().enumerate() {
+        let sz = cx.rng.gen_range(1..3_000);
+        let v = if n % 2 == 0 { values[i].0.clone() } else { value_with_id(&mut cx.rng, values[i].1, (i + 200_000) as u64, sz) };
+        put(&mut sim, &keys[i], &v);
+        again.push((i, v));
+    }
+    if !again.is_empty() {
+        if !sim.settle(&mut d) {
+            cx.inconclusive("re-puts after the clean-up did not settle");
+            let _ = std::fs::remove_dir_all(&root);
+            return;
+        }
+        cx.count_n("cleanup:dropped-keys-put-again", again.len() as u64);
+        let listed = sim.all_addresses(0);
+        for (n, (i, v)) in again.iter().enumerate() {
+            cx.eval();
+            let addr = ant_protocol::NetworkAddress::from_record_key(&keys[*i]);
+            let same = n % 2 == 0;
+            match sim.get_local(0, &keys[*i]) {
+                Some(r) if r.value == *v => {}
+                Some(_) => cx.violation("wrong-bytes-after-settle", format!("a key put again after the clean-up dropped it reads back other bytes (same bytes as before: {same})"), w.clone()),
+                None => cx.violation("accepted-write-unreadable-after-settle", format!("a key put again after the clean-up dropped it is not readable (same bytes as before: {same})"), w.clone()),
+            }
+            if !listed.contains_key(&addr) {
+                cx.violation("accepted-write-not-listed-correctly", format!("a key put again after the clean-up dropped it is not listed (same bytes as before: {same})"), w.clone());
+            }
+        }
+    }
+    cx.nontrivial(&("cleanup", held_before, listed.len(), dropped.len()));
+    if cx.index < 70 {
+        cx.sample(json!({"cleanup_case": {"held_before": held_before, "listed_after": listed.len(), "tracked_dropped": dropped.len(), "put_again": again.len()}}));
+    }
+    drop(sim);
+    let _ = std::fs::remove_dir_all(&root);
 }
